@@ -479,6 +479,20 @@ def main():
                     fails.append({"sig": "C12:edited-model-not-rejected", "what": "after a successful run the command %s, which other commands use, was removed with `del program.commands[%r]`; running the edited model gave %s, executed %r, wrote %r (expected: ResultDoesNotExist before anything runs)" % (
                         eo["victim"], eo["victim"], eo["cls"] or "no error", eo["executed"][:5], eo["new_files"]),
                         "replay": {"source": src, "csv": extra.get("csv", base_csv), "history": ["run()", "del program.commands[%r]" % eo["victim"], "run()"]}})
+        if kind == "valid-model" and obs["cls"] is None and prop == "C12" and "data.csv" in src and rnd.random() < 0.4:
+            # the same model reading a copy of the table: run while the copy exists, then again after the copy has been deleted
+            src2 = src.replace("data.csv", "gone.csv", 1)
+            with open(os.path.join(wd, "gone.csv"), "w") as fh:
+                fh.write(extra.get("csv", base_csv))
+            o1 = observe(src2, wd)
+            os.remove(os.path.join(wd, "gone.csv"))
+            o2 = observe(src2, wd)
+            dist["input_deleted_between_runs"] = dist.get("input_deleted_between_runs", 0) + 1
+            evaluations += 2
+            if o1["cls"] is None and (o2["cls"] != "PathDoesNotExist" or o2["executed"] or o2["new_files"]):
+                fails.append({"sig": "C12:deleted-input-not-rejected", "what": "the model ran while gone.csv existed; after the file was deleted the same model gave %s, executed %r, wrote %r (expected: PathDoesNotExist before anything runs)" % (
+                    o2["cls"] or "no error", o2["executed"][:5], o2["new_files"]),
+                    "replay": {"source": src2, "csv": extra.get("csv", base_csv), "history": ["run with gone.csv present", "delete gone.csv", "load and run again"]}})
         evaluations += 1
         key = obs["cls"] or "ok"
         dist["outcomes"][key] = dist["outcomes"].get(key, 0) + 1
